@@ -11,3 +11,5 @@ from . import generable  # noqa: F401
 from . import mixture  # noqa: F401
 from . import system  # noqa: F401
 from . import forcefield  # noqa: F401
+from . import mol_prob  # noqa: F401
+from . import atom_graph  # noqa: F401
